@@ -99,7 +99,7 @@ def run(ctx):
 
     # ---- R10.1 non-blocking mode ---------------------------------------------------------------
     tacq = [blk for blk in root.blocks if r.is_sem_call(root, blk.term, 'try_acquire') and not blk.cleanup]
-    ats = [blk for blk in root.blocks if blk.term.kind == 'call' and not blk.cleanup and blk.term.rcallee and strip_generics(blk.term.rcallee) == 'deadpool::managed::apply_timeout']
+    ats = [blk for blk in root.blocks if blk.term.kind == 'call' and not blk.cleanup and blk.term.rcallee and strip_generics(blk.term.rcallee) == r.TIMEOUT_WRAPPER_FN]
     if len(tacq) != 1 or not ats:
         ctx.undecide('R10.1', 'getter: try_acquire sites %d, apply_timeout sites %d' % (len(tacq), len(ats)))
     else:
@@ -135,7 +135,7 @@ def run(ctx):
             ctx.ob('R10.1', 'blocking get waits under apply_timeout', ats[0].idx in reach_f and tacq[0].idx not in reach_f, ctx.where(root, ats[0].term.line), '', construct='blocking:apply_timeout')
 
     # ---- R10.2 apply_timeout decision table --------------------------------------------------------------
-    at = prog.body('deadpool::managed::apply_timeout::{closure#0}')
+    at = r.TIMEOUT_WRAPPER
     if at is None:
         raise Undecided('apply_timeout body not found')
     ctx.saw(at)
@@ -186,7 +186,7 @@ def run(ctx):
         b = prog.bodies[p]
         ban = prog.an(b)
         for blk in b.blocks:
-            if blk.term.kind == 'call' and not blk.cleanup and blk.term.rcallee and strip_generics(blk.term.rcallee) == 'deadpool::managed::apply_timeout':
+            if blk.term.kind == 'call' and not blk.cleanup and blk.term.rcallee and strip_generics(blk.term.rcallee) == r.TIMEOUT_WRAPPER_FN:
                 srcs = [sources(ban, x) for x in blk.term.args]
                 tt = sorted(s[1].split('::')[-1] for s in srcs[1] if s[0] == 'agg' and s[1].startswith(TT))
                 dur = sorted(s[1] for s in srcs[2] if s[0] in ('field', 'upvar'))
